@@ -53,6 +53,11 @@ pub struct Case {
     /// the artefact travels in the pre-Alonzo shape `[body, witness set, auxiliary data / null]` (no validity flag)
     #[serde(default)]
     pub legacy_shape: bool,
+    /// the producer writes witness fields it has nothing for as empty lists: bit 0 = key witnesses
+    /// (`0: []`, the usual look of an unsigned transaction from some tools), bit 1 = bootstrap witnesses,
+    /// bit 2 = native scripts
+    #[serde(default)]
+    pub empty_fields: u8,
 }
 
 pub struct C04;
@@ -168,7 +173,7 @@ fn gen(seed: u64, tier: Tier) -> Case {
             _ => SOp::Merge { from: r.below(NODES as u64) as u8, to: node },
         });
     }
-    Case { session, foreign, ops, hash_seed: r.next(), presigned: r.chance(1, 2), legacy_shape: r.chance(1, 6) }
+    Case { session, foreign, ops, hash_seed: r.next(), presigned: r.chance(1, 2), legacy_shape: r.chance(1, 6), empty_fields: if r.chance(1, 4) { 1 + r.below(7) as u8 } else { 0 } }
 }
 
 #[derive(Clone)]
@@ -219,6 +224,49 @@ fn with_validity_flag(bytes: &[u8]) -> Option<Vec<u8>> {
     b.push(0xf5);
     b.extend_from_slice(&bytes[a[2].start..a[2].end]);
     Some(b)
+}
+
+/// the same transaction with `0: []` / `2: []` added to the witness-set map where those keys are absent
+fn with_empty_witness_fields(bytes: &[u8], which: u8, out: &mut Outcome) -> Vec<u8> {
+    let v = match TxView::parse(bytes) {
+        Ok(v) => v,
+        Err(_) => return bytes.to_vec(),
+    };
+    let ws = v.ws();
+    let entries = match ws.as_map() {
+        Some(m) => m,
+        None => return bytes.to_vec(),
+    };
+    // only the plain form the library itself writes (definite map, one-byte head)
+    if bytes[ws.start] < 0xa0 || bytes[ws.start] > 0xb5 || bytes[0] != 0x84 {
+        return bytes.to_vec();
+    }
+    let mut add: Vec<u64> = vec![];
+    for (bit, key) in [(1u8, 0u64), (2, 2), (4, 1)] {
+        if which & bit != 0 && !entries.iter().any(|(k, _)| k.as_u64() == Some(key)) {
+            add.push(key);
+        }
+    }
+    if add.is_empty() {
+        return bytes.to_vec();
+    }
+    let mut b = bytes[..ws.start].to_vec();
+    cbor::w_map(&mut b, (entries.len() + add.len()) as u64);
+    // keys in ascending order, existing entries verbatim
+    let mut keys: Vec<u64> = entries.iter().filter_map(|(k, _)| k.as_u64()).chain(add.iter().cloned()).collect();
+    keys.sort();
+    for k in keys {
+        if let Some((kn, vn)) = entries.iter().find(|(kk, _)| kk.as_u64() == Some(k)) {
+            b.extend_from_slice(&bytes[kn.start..vn.end]);
+        } else {
+            cbor::w_uint(&mut b, k);
+            cbor::w_tag(&mut b, 258);
+            cbor::w_array(&mut b, 0);
+            out.count("fault.F8_empty_witness_field_present", 1);
+        }
+    }
+    b.extend_from_slice(&bytes[ws.end..]);
+    b
 }
 
 fn facts(bytes: &[u8]) -> Option<Facts> {
@@ -279,6 +327,9 @@ fn check_node(step: usize, id: u8, ns: &NodeState, f: &Facts, out: &mut Outcome)
     let v = match TxView::parse(&bytes) {
         Ok(v) => v,
         Err(e) => {
+            if std::env::var("C04_DEBUG").is_ok() {
+                eprintln!("reserialized: {}", hex::encode(&bytes));
+            }
             out.violate("C04.reserialize", "reserialized_bytes_unreadable", format!("step {} node {}: {}", step, id, e));
             return;
         }
@@ -414,6 +465,7 @@ fn execute(c: &Case) -> Outcome {
     };
     let plan = RngPlan { sampler: Sampler::Uniform, seed: 0, forced: None };
     let sim = Sim::install(&plan, c.hash_seed);
+    let lib_bytes = if c.empty_fields != 0 { with_empty_witness_fields(&lib_bytes, c.empty_fields, &mut out) } else { lib_bytes };
     // 2. optionally a foreign peer re-encodes it
     let mut original = lib_bytes.clone();
     if let Some((pw, pi, pc, pp, pu, seed)) = c.foreign {
@@ -455,6 +507,9 @@ fn execute(c: &Case) -> Outcome {
                 out.count("fault.F8_pre_alonzo_transaction_shape", 1);
             }
         }
+    }
+    if std::env::var("C04_DEBUG").is_ok() {
+        eprintln!("original: {}", hex::encode(&original));
     }
     datum_relay(&original, &mut out);
     let f = match facts(&original) {
